@@ -94,6 +94,12 @@ func resumeSchedules(w *core.Worker, r *core.Rand, c *Case, op view.MsgOpt, s1Ma
 		if CheckLateEnd(w, c, s.cuts, op) {
 			w.Inc("runs/late-end-flag")
 		}
+		// ... and the flagged call may bring no new bytes at all (everything was delivered, then
+		// the end of the stream is noticed)
+		s.cuts = append(s.cuts, n)
+		if CheckLateEnd(w, c, s.cuts, op) {
+			w.Inc("runs/late-end-flag-without-new-bytes")
+		}
 		if n-c.Start <= 64 {
 			for cut := c.Start; cut < n; cut++ {
 				s.cuts = CutsSingle(s.cuts, cut, n)
